@@ -311,10 +311,27 @@ theorem contains_iff {l : List Str} {a : Str} : l.contains a = true ↔ a ∈ l 
   simp
 
 theorem defaultOk_out (x : Survey) : defaultOk (obsOf x.defaultLanguage (out x)) = true := by
-  have hall : ((out x).translations.all fun t => t.isDefault == (t.lang == x.defaultLanguage)) = true := by
-    simp only [List.all_eq_true, beq_iff_eq]
-    exact default_mark x
-  simp only [defaultOk, obsOf, hall, ite_self]
+  simp only [defaultOk, obsOf, List.all_eq_true, beq_iff_eq]
+  exact default_mark x
+
+/-- at most one translation is marked default, whatever the default language is -/
+theorem default_at_most_one (x : Survey) :
+    ((out x).translations.filter (·.isDefault)).length ≤ 1 := by
+  by_cases hd : x.defaultLanguage ∈ (out x).translations.map (·.lang)
+  · obtain ⟨pre, t, post, heq, _, ht, hrest⟩ := default_unique x hd
+    rw [heq, List.filter_append, List.filter_cons, ht]
+    have h1 : pre.filter (·.isDefault) = [] := by
+      rw [List.filter_eq_nil_iff]; intro u hu; simp [hrest u (List.mem_append.mpr (Or.inl hu))]
+    have h2 : post.filter (·.isDefault) = [] := by
+      rw [List.filter_eq_nil_iff]; intro u hu; simp [hrest u (List.mem_append.mpr (Or.inr hu))]
+    simp [h1, h2]
+  · have : (out x).translations.filter (·.isDefault) = [] := by
+      rw [List.filter_eq_nil_iff]
+      intro t ht
+      have hm := default_mark x t ht
+      have hne : t.lang ≠ x.defaultLanguage := fun e => hd (e ▸ List.mem_map.mpr ⟨t, ht, rfl⟩)
+      simp [hm, hne]
+    simp [this]
 
 /-- The decidable predicate `Itext.holds` — the oracle evaluated by the check on the implementation's
 XForm — is true of the model's output for every survey satisfying the guard. -/
